@@ -6,11 +6,11 @@ package main
 // harness processors with scalar and ARRAY inputs whose result depends on the input order.
 
 import (
+	"bytes"
 	"crypto/sha256"
 	"fmt"
 	"image"
 	"image/png"
-	"bytes"
 	"sort"
 	"strings"
 
@@ -24,6 +24,8 @@ import (
 	"github.com/EliCDavis/polyform/refutil"
 	"github.com/EliCDavis/vector/vector2"
 	"github.com/EliCDavis/vector/vector3"
+
+	"verif/harness/hx"
 )
 
 // value type codes (only used to predict which connections reflect accepts)
@@ -327,6 +329,27 @@ func initTable() {
 	}
 }
 
+var pkindCoq = []string{"PNone", "PValue", "PFile", "PImage"}
+
+// precCoq renders a parameter record [name; description; default; value; cli] as a Graph.Instance.prec
+func precCoq(rec jv) string {
+	if rec.k != jArr {
+		return "None"
+	}
+	opt := func(v jv) string {
+		if v.k != jArr {
+			return "None"
+		}
+		return "(Some " + v.arr[0].Coq() + ")"
+	}
+	cli := "None"
+	if rec.arr[4].k == jArr {
+		cli = fmt.Sprintf("(Some (%s, %s))", hx.CoqString(rec.arr[4].arr[0].s), hx.CoqString(rec.arr[4].arr[1].s))
+	}
+	return fmt.Sprintf("(Some (mkprec %s %s %s %s %s))", hx.CoqString(rec.arr[0].s), hx.CoqString(rec.arr[1].s),
+		opt(rec.arr[2]), opt(rec.arr[3]), cli)
+}
+
 func (t *tyInfo) coq() string {
 	var b strings.Builder
 	b.WriteString("(mkty [")
@@ -334,11 +357,9 @@ func (t *tyInfo) coq() string {
 		if i > 0 {
 			b.WriteByte(';')
 		}
-		fmt.Fprintf(&b, "P %q %v %d", p.Name, p.Array, p.VT)
+		fmt.Fprintf(&b, "P %s %v %d", hx.CoqString(p.Name), p.Array, p.VT)
 	}
-	fmt.Fprintf(&b, "] %d %d %v ", t.Out, t.PKind, t.Artifact)
-	t.defRec.coq(&b)
-	b.WriteString(")")
+	fmt.Fprintf(&b, "] %d %s %v %s)", t.Out, pkindCoq[t.PKind], t.Artifact, precCoq(t.defRec))
 	return b.String()
 }
 
